@@ -49,6 +49,24 @@ func stdInsts(trs []uint8, partialModes []string) []InstCfg {
 	return out
 }
 
+// revInsts: instances that receive their block data in another accepted shape: every target list in
+// descending order (InstCfg.Rev), every proof with a trailing unused hash (InstCfg.Junk), or both.
+func revInsts(withStump bool) []InstCfg {
+	out := []InstCfg{{Kind: "pollard", Rev: true}, {Kind: "map", Full: true, TR: 0, Rev: true}, {Kind: "map", Full: false, TR: 0, Mode: "all", Rev: true}, {Kind: "map", Full: false, TR: 63, Mode: "none", Rev: true}}
+	if withStump {
+		out = append([]InstCfg{{Kind: "stump", Rev: true}}, out...)
+	}
+	// the same instances with one trailing unused proof hash in every proof, in both orders
+	for _, c := range append([]InstCfg(nil), out...) {
+		j := c
+		j.Junk = true
+		out = append(out, j)
+		j.Rev = false
+		out = append(out, j)
+	}
+	return out
+}
+
 func init() {
 	Engines["hist"] = func(prop string, payload json.RawMessage) ([]Violation, error) {
 		var p histPayload
@@ -100,6 +118,12 @@ func init() {
 			BFS(c, &PartialFamily{Nmax: pick(c, 3, 4), TR: 63, UndoBud: 1, SetLimit: 2, Prop: "C09", Base: b, Collect: "C01"}, 0)
 		}
 		queriedFamily(c, HistOracle{Roots: true, Prop: "C01"})
+		// every block handed over with its targets (and their hashes) in descending order
+		nrev := pick(c, 6, 7)
+		c.Cov.Bound["descending_targets.Nmax"] = nrev
+		if !c.Expired() {
+			BFS(c, &HistFamily{Nmax: nrev, Insts: revInsts(true), Or: HistOracle{Roots: true, Prop: "C01"}}, 0)
+		}
 		tallFamily(c, "C01")
 	}
 
@@ -178,6 +202,12 @@ func init() {
 		c.Cov.Bound["TotalRows"] = fmt.Sprint(trs)
 		c.Cov.Bound["undo_budget"] = fam.UndoBud
 		BFS(c, fam, 0)
+		// blocks, undos and Verify(remember) handed over with descending target lists
+		nrev := pick(c, 4, 5)
+		c.Cov.Bound["descending_targets"] = fmt.Sprintf("Nmax=%d, undo budget 2, verify budget 1", nrev)
+		if !c.Expired() {
+			BFS(c, &HistFamily{Nmax: nrev, Insts: revInsts(false), Or: HistOracle{Roots: true, Proofs: true, Lookups: true, Prop: "C06", OnlyAfter: "undo", ProofSets: "small"}, UndoBud: 2, VerBud: 1, PermLimit: 2}, 0)
+		}
 		// partial forests started from the bare roots of large accumulators (rows up to 63): after
 		// every undo the stored positions, the cached-leaf table and every proof must be those of
 		// the reference forest of the pre-block state
